@@ -94,7 +94,7 @@ func (k Key) Matches(key rune, modifiers ...ModifierMask) bool {
 	}
 
 	// Rule 6
-	if mods&ModShift != 0 && unicode.IsLower(key) {
+	if mods&ModShift != 0 && unicode.IsLower(key) && unicode.ToUpper(key) != key {
 		key = unicode.ToUpper(key)
 		if k.Text == string(key) && unshiftedMods == unshiftedkMods {
 			return true
